@@ -428,7 +428,7 @@ def stepEntry (e : Entry) (code : Code) (jd : List Bool) (a : Answer) (s : State
       if args.length ≠ expectedArity e then .fail .arityMismatch s else
       match handleJmp e jd args { s with stack := rest } with
       | .error (er, s') => .fail er s'
-      | .ok (pc, s') => .next { s' with pc := pc }
+      | .ok (pc, s') => .next { s' with stack := rest, pc := pc }
   | .exit =>
     match pre e s.stack with
     | .error er => .fail er s
@@ -445,7 +445,8 @@ def stepEntry (e : Entry) (code : Code) (jd : List Bool) (a : Answer) (s : State
       match handleValue e a args { s with stack := rest } with
       | .error (er, s') => .fail er s'
       | .ok (v, s') =>
-        match post e s'.stack v with
+        -- the handlers have no access to the stack: the result goes on top of `rest`
+        match post e rest v with
         | .error er => .fail er s'
         | .ok st => .next { s' with stack := st, pc := s.pc + 1 }
 
